@@ -825,7 +825,11 @@ class Interp:
                 raise Undecided(f"membership in opaque container: {unparse(node)}")
             if isinstance(b, dict):
                 r = a in b
-            elif isinstance(b, (list, tuple, set, frozenset, str)) or isinstance(b, type({}.keys())):
+            elif isinstance(b, str):
+                if not isinstance(a, str):
+                    raise Undecided(f"substring test with non-string: {unparse(node)}")
+                r = a in b
+            elif isinstance(b, (list, tuple, set, frozenset)) or isinstance(b, type({}.keys())):
                 if isinstance(a, Opaque):
                     if isinstance(b, str) or all(isinstance(x, (str, int, float, type(None))) for x in b):
                         raise Undecided(f"membership of opaque value: {unparse(node)}")
